@@ -294,6 +294,7 @@ class JSObject:
         self._properties: Dict[str, JSValue] = {}
         self._getters: Dict[str, Any] = {}  # property name -> getter function
         self._setters: Dict[str, Any] = {}  # property name -> setter function
+        self._order: Dict[str, None] = {}  # own keys (data and accessor) in creation order
         self._prototype = prototype
 
     def get(self, key: str) -> JSValue:
@@ -323,14 +324,17 @@ class JSObject:
     def define_getter(self, key: str, getter: Any) -> None:
         """Define a getter for a property."""
         self._getters[key] = getter
+        self._order[key] = None
 
     def define_setter(self, key: str, setter: Any) -> None:
         """Define a setter for a property."""
         self._setters[key] = setter
+        self._order[key] = None
 
     def set(self, key: str, value: JSValue) -> None:
         """Set a property value."""
         self._properties[key] = value
+        self._order[key] = None
 
     def has(self, key: str) -> bool:
         """Check if object has own property."""
@@ -341,11 +345,14 @@ class JSObject:
         self._properties.pop(key, None)
         self._getters.pop(key, None)
         self._setters.pop(key, None)
+        self._order.pop(key, None)
         return True
 
     def keys(self) -> List[str]:
-        """Get own enumerable property keys."""
-        return list(self._properties.keys())
+        """Get own enumerable property keys (data and accessor properties, creation order)."""
+        if not self._getters and not self._setters:
+            return list(self._properties.keys())
+        return list(self._order.keys())
 
     def __repr__(self) -> str:
         return f"JSObject({self._properties})"
